@@ -44,6 +44,7 @@ type algStats struct {
 	CraftedBatches, PartialsChecked, FaultySignerBatches, AwayProposerBatches, SlowReaderBatches int
 	C11Refed, C02StorageFaults                                                                   int
 	SignerErrorBatches, LateReaderBatches                                                        int
+	BigPayloadBatches, SamePayloadBatches                                                        int
 	C07Exhaustive                                                                                string
 	Configs                                                                                      []string
 	OutcomeHist                                                                                  map[string]int
@@ -291,6 +292,7 @@ func (a *algRun) signBatch(c *cluster, round string, proposer int, data map[stri
 	if !a.safetyOnly {
 		// (not for the batch in which the harness itself made one signer's partial signatures wrong)
 		defer a.partialsOverProposed(c, round, batch, proposal.SigningTasks)
+		defer a.identifiersAnswered(c, batch, proposal.SigningTasks) // algw24.go
 	}
 	answer := func(i int) {
 		n := c.nodes[i]
@@ -440,7 +442,7 @@ func (a *algRun) checkSignatures(c *cluster, round, batch string, secret kyber.S
 			return
 		}
 		if !bytes.Equal(rs.SrcPayload, wantPayload) {
-			a.mon(fmt.Sprintf("C03 stored_payload %s: %s stores payload %x for %q, proposed %x", tag, where, rs.SrcPayload, rs.File, wantPayload))
+			a.mon(fmt.Sprintf("C03 stored_payload %s: %s stores payload %s for %q, proposed %s", tag, where, shortHex(rs.SrcPayload), rs.File, shortHex(wantPayload)))
 		}
 		ps, err := prysmBLS.SignatureFromBytes(rs.Signature)
 		if err != nil {
@@ -615,6 +617,8 @@ func runAlgDiff(outDir string, seed int64, tier string) {
 					}
 					a.checkSignatures(c, round, batch, secret, gk, want, fmt.Sprintf("%s crafted batch (repeated identifier, range, explicit task named like a validator) signers=%v", tag, signers))
 				}
+				// C01/C03: long explicit payloads; one payload under two identifiers (algw24.go)
+				a.w24Batches(c, round, secret, gk, cf.t, tag)
 				// C07: racing proposals, then schedules with slow signers (all of them for n=3,t=2 in the thorough tier)
 				a.raceProposals(c, round, secret, gk, cf.t, tag)
 				var scheds []c07Schedule
